@@ -220,11 +220,26 @@ def atomic_sites(body, recv_re):
     return sites
 
 
+FN = {"borrow": ".borrow", "borrow_mut": ".borrowMut", "release": ".release", "release_mut": ".releaseMut",
+      "reserve_entities": ".reserveEntities", "reserve_entity": ".reserveEntity", "contains": ".contains",
+      "get": ".get", "resolve_unknown_gen": ".resolveUnknownGen"}
+METH = {"fetch_add": ".fetchAdd", "fetch_sub": ".fetchSub", "fetch_and": ".fetchAnd", "fetch_or": ".fetchOr",
+        "compare_exchange": ".compareExchange", "compare_exchange_weak": ".compareExchangeWeak", "load": ".load",
+        "store": ".store", "swap": ".swap"}
+ORD = {"Relaxed": ".relaxed", "Acquire": ".acquire", "Release": ".release", "AcqRel": ".acqRel", "SeqCst": ".seqCst"}
+OPERAND = {"1": ".one", "0 UNIQUE_BIT": ".zeroToUnique", "!UNIQUE_BIT": ".notUnique", "count as isize": ".count", "": ".none"}
+
+
+def lean_site(f, m, o, r):
+    ords = "[" + ", ".join(ORD.get(x, ".unknown") for x in r) + "]"
+    return f"⟨{FN[f]}, {METH[m]}, {OPERAND.get(o, '.other')}, {ords}⟩"
+
+
 def main():
     repo, outdir = sys.argv[1], sys.argv[2]
     status = {"status": "ok", "fragments": {}}
     lines = ["/- GENERATED by tools/extract_facts.py from /repo sources — do not edit. -/",
-             "namespace Hecs.Generated", ""]
+             "import HecsModel.Model.Atomics", "namespace Hecs.Generated", "open Hecs.Atomics", ""]
     try:
         ent = strip_comments(open(os.path.join(repo, "src/entities.rs")).read())
         # ---- to_bits
@@ -290,11 +305,9 @@ def main():
             for (meth, operand, ords) in atomic_sites(body, r"self\s*\.\s*0"):
                 bsites.append((fn, meth, operand, ords))
         status["fragments"]["borrow_sites"] = bsites
-        def lean_str_list(xs):
-            return "[" + ", ".join('"%s"' % x for x in xs) + "]"
-        lines += ["/-- atomic call sites of `AtomicBorrow`, in source order: (function, method, operand, orderings) -/",
-                  "def borrowSites : List (String × String × String × List String) := ["]
-        lines += [",\n".join(f'  ("{f}", "{m}", "{o}", {lean_str_list(r)})' for f, m, o, r in bsites), "]", ""]
+        lines += ["/-- atomic call sites of `AtomicBorrow`, in source order -/",
+                  "def borrowSites : List Site := ["]
+        lines += [",\n".join("  " + lean_site(f, m, o, r) for f, m, o, r in bsites), "]", ""]
         # ---- entities.rs shared-path atomic sites
         esites = []
         sigs = {
@@ -310,8 +323,8 @@ def main():
                 esites.append((fn, meth, operand, ords))
         status["fragments"]["reserve_sites"] = esites
         lines += ["/-- atomic accesses to `free_cursor` on the `&self` paths of `Entities` -/",
-                  "def reserveSites : List (String × String × String × List String) := ["]
-        lines += [",\n".join(f'  ("{f}", "{m}", "{o}", {lean_str_list(r)})' for f, m, o, r in esites), "]", ""]
+                  "def reserveSites : List Site := ["]
+        lines += [",\n".join("  " + lean_site(f, m, o, r) for f, m, o, r in esites), "]", ""]
     except (ParseError, OSError, KeyError, IndexError) as ex:
         status = {"status": "unavailable", "detail": str(ex)}
         print(json.dumps(status))
